@@ -143,12 +143,16 @@ type cell struct {
 	Comp       bool   `json:"comp"`
 	Proto      string `json:"proto"`
 	Mux        bool   `json:"mux"`
+	NoToken    bool   `json:"emptyToken,omitempty"`
 }
 
 func runCell(c cell) (viol []string, inconclusive string) {
 	httpPort := rw.FreePort()
 	srv, err := rw.StartServer(func(s *v1.ServerConfig) {
 		s.Auth.Token = tokenMarker
+		if c.NoToken {
+			s.Auth.Token = ""
+		}
 		s.Transport.TCPMux = lo.ToPtr(c.Mux)
 		s.Transport.TLS.Force = c.Force
 		s.VhostHTTPPort = httpPort
@@ -177,6 +181,9 @@ func runCell(c cell) (viol []string, inconclusive string) {
 	hp.Transport.UseEncryption, hp.Transport.UseCompression = c.Enc, c.Comp
 	mut := func(cc *v1.ClientCommonConfig) {
 		cc.Auth.Token = tokenMarker
+		if c.NoToken {
+			cc.Auth.Token = ""
+		}
 		cc.ServerPort = rl.port()
 		cc.Transport.Protocol = c.Proto
 		cc.Transport.TCPMux = lo.ToPtr(c.Mux)
@@ -294,6 +301,10 @@ func runFirstBytes(mode string) (viol []string, n int, inconclusive string) {
 			s.Transport.TLS.Force = true
 		case "trustedca":
 			s.Transport.TLS.TrustedCaFile = rw.TestdataDir + "/ca.crt"
+		case "trustedca-autocert":
+			// a trusted CA with the server's own certificate left to be generated
+			s.Transport.TLS.TrustedCaFile = rw.TestdataDir + "/ca.crt"
+			s.Transport.TLS.CertFile, s.Transport.TLS.KeyFile = "", ""
 		}
 	})
 	if err != nil {
@@ -328,7 +339,7 @@ func runFirstBytes(mode string) (viol []string, n int, inconclusive string) {
 			break
 		}
 	}
-	if mode == "trustedca" {
+	if strings.HasPrefix(mode, "trustedca") {
 		// TLS peers: no certificate / a certificate of another CA must be refused, a certificate of the CA accepted
 		try := func(certName string) (loggedIn bool) {
 			var proxies []v1.ProxyConfigurer
@@ -355,13 +366,13 @@ func runFirstBytes(mode string) (viol []string, n int, inconclusive string) {
 		}
 		n += 3
 		if try("") {
-			viol = append(viol, "server with a trusted CA accepted a TLS client without certificate")
+			viol = append(viol, mode+": server with a trusted CA accepted a TLS client without certificate")
 		}
 		if try("other") {
-			viol = append(viol, "server with a trusted CA accepted a client certificate signed by another CA")
+			viol = append(viol, mode+": server with a trusted CA accepted a client certificate signed by another CA")
 		}
 		if !try("client") {
-			viol = append(viol, "server with a trusted CA refused a client certificate signed by that CA")
+			viol = append(viol, mode+": server with a trusted CA refused a client certificate signed by that CA")
 		}
 	}
 	return
@@ -470,6 +481,15 @@ func main() {
 		}
 		cells = append(cells, cl)
 	}
+	// no authentication token configured (the control-channel cipher is then keyed by the empty string): the
+	// registration secrets must still not cross in clear
+	for m := 0; m < 8; m++ {
+		cl := cell{NoToken: true, Enc: m&1 != 0, Mux: m&2 != 0, Proto: "tcp"}
+		if m&4 != 0 {
+			cl.Proto = "websocket"
+		}
+		cells = append(cells, cl)
+	}
 	type res struct {
 		c   cell
 		v   []string
@@ -514,8 +534,24 @@ func main() {
 	if inconclusive > 0 {
 		c.Cap(fmt.Sprintf("%d of %d cells inconclusive", inconclusive, len(cells)))
 	}
-	for _, mode := range []string{"force", "trustedca"} {
-		v, n, inc := runFirstBytes(mode)
+	type fbRes struct {
+		v   []string
+		n   int
+		inc string
+	}
+	modes := []string{"force", "trustedca", "trustedca-autocert"}
+	fb := make([]fbRes, len(modes))
+	var fwg sync.WaitGroup
+	for i, mode := range modes {
+		fwg.Add(1)
+		go func(i int, mode string) {
+			defer fwg.Done()
+			fb[i].v, fb[i].n, fb[i].inc = runFirstBytes(mode)
+		}(i, mode)
+	}
+	fwg.Wait()
+	for k, mode := range modes {
+		v, n, inc := fb[k].v, fb[k].n, fb[k].inc
 		for i := 0; i < n; i++ {
 			c.Count(fmt.Sprintf("firstbyte:%s:%d", mode, i))
 		}
